@@ -18,7 +18,7 @@ EXTERNAL = {
     'time': 'time.time() returns a non-decreasing real (ghost now); time.sleep returns',
     'threading': 'Thread.start runs the target later exactly once; Event/RLock per DESIGN 2.8',
     'bisect': 'bisect_left / bisect / insort on a sorted sequence return / insert at the partition point',
-    'random': 'randrange(a, b) returns some integer of [a, b) and raises ValueError when empty',
+    'random': 'randrange(a, b) returns some integer of [a, b) and raises ValueError when empty; random() some real of [0, 1)',
 }
 
 
@@ -153,7 +153,13 @@ def install(I):
         I_.assume(z3.And(r.t >= lt, r.t < ht))
         I_.ghost.setdefault('random_draws', PyList()).items.append((r, lo, hi))
         return r
+    def unit_random(I_, a, k):
+        r = I_.fresh('real', 'unit_random')
+        I_.assume(z3.And(r.t >= 0, r.t < 1))
+        I_.ghost.setdefault('unit_draws', PyList()).items.append(r)
+        return r
     module('random', randrange=Builtin('randrange', randrange), seed=Builtin('seed', lambda I_, a, k: None),
+           random=Builtin('random', unit_random),
            randint=Builtin('randint', lambda I_, a, k: randrange(I_, [a[0], I_.binop('Add', a[1], 1)], k)))
 
     module('html', escape=Builtin('html.escape', lambda I_, a, k: html_escape(I_, a[0])),
